@@ -51,6 +51,8 @@ def build(desc):
         nmk = (1, 1)
     case, snaps = simgen.gen_case(desc["seed"], desc["idx"], market_params=mp, script_params=sp, n_strategies=(1, 1) if lone else (1, 3), n_markets=nmk, salt=6)
     case["config"] = {"simulated_strategy_isolation": rng.random() < 0.7}
+    if desc["idx"] % 9 == 4:
+        case["middleware_first"] = True  # a user subclass of the simulation middleware, registered before the clients
     if filt:
         case["listener_kwargs"] = dict(({"inplay": True}, {"seconds_to_start": 560}, {"inplay": True}, {"max_inplay_seconds": 4})[(desc["idx"] // 8) % 4])
     if desc["idx"] % 5 == 2:
